@@ -462,6 +462,8 @@ es_pub_export(int ci, int le, int compress, int inf, const es_in *x, const es_in
 	return (rc);
 }
 
+static int g_import_reuse;
+void es_pub_import_reuse_next(int on) { g_import_reuse = on; }
 int
 es_pub_import(int ci, int le, const es_in *pkx, const es_in *pky, size_t pk_size,
     int *inf, uint8_t *x_be, uint8_t *y_be, int *xy_ok) {
@@ -476,6 +478,13 @@ es_pub_import(int ci, int le, const es_in *pkx, const es_in *pky, size_t pk_size
 	/* exactly what ecdsa_verify_be() / ecdsa_dh_be() do before importing */
 	if (0 != (rc = ec_point_init(&Q, curve->m)))
 		return (SHIM_ERR(rc));
+	if (g_import_reuse) { /* the object held the neutral element before */
+		uint8_t zero = 0;
+		g_import_reuse = 0;
+		rc = (0 != le) ? ecdsa_pub_key_import_le(curve, &zero, NULL, 1, &Q) : ecdsa_pub_key_import_be(curve, &zero, NULL, 1, &Q);
+		if (0 != rc)
+			return (SHIM_ERR(rc));
+	}
 	g_begin();
 	{
 		uint8_t *px = g_in(pkx, "pub_key_x"), *py = g_in(pky, "pub_key_y");
